@@ -1276,21 +1276,82 @@ func regexpPattern(c *CallCtx) string {
 	return strings.TrimPrefix(c.st.obj(o).Label, "regexp:")
 }
 
+// parseCharClass parses patterns of the form [set] / [^set], optionally followed by +,
+// where set consists of single characters and a-b ranges. ok=false for anything else.
+func parseCharClass(pat string) (ranges [][2]byte, negate, plus, ok bool) {
+	if len(pat) < 3 || pat[0] != '[' {
+		return
+	}
+	end := strings.IndexByte(pat, ']')
+	if end < 0 {
+		return
+	}
+	rest := pat[end+1:]
+	if rest == "+" {
+		plus = true
+	} else if rest != "" {
+		return
+	}
+	set := pat[1:end]
+	if strings.HasPrefix(set, "^") {
+		negate = true
+		set = set[1:]
+	}
+	for i := 0; i < len(set); i++ {
+		if set[i] == '\\' || set[i] == '[' {
+			return nil, false, false, false
+		}
+		if i+2 < len(set) && set[i+1] == '-' {
+			ranges = append(ranges, [2]byte{set[i], set[i+2]})
+			i += 2
+		} else {
+			ranges = append(ranges, [2]byte{set[i], set[i]})
+		}
+	}
+	return ranges, negate, plus, true
+}
+
+// regexpReplaceAllString models ReplaceAllString for single-character-class patterns with a
+// replacement without $: every matching character (or, with +, every maximal run of matching
+// characters) is replaced. Characters are bytes (ASCII inputs).
 func regexpReplaceAllString(c *CallCtx) (Value, bool) {
 	e, ts := c.e, c.e.ts
 	pat := regexpPattern(c)
 	src, repl := c.args[1].(*Term), c.args[2].(*Term)
-	if pat == "[^a-zA-Z0-9_]" && repl.IsConst() && len(repl.Str) == 1 {
-		r := ts.Int(int64(repl.Str[0]))
-		return e.mapChars(c.st, src, func(ch *Term, _ int) *Term {
-			in := func(lo, hi byte) *Term {
-				return ts.And(ts.BvCmp(OBvUle, ts.Int(int64(lo)), ch), ts.BvCmp(OBvUle, ch, ts.Int(int64(hi))))
-			}
-			keep := ts.Or(in('a', 'z'), in('A', 'Z'), in('0', '9'), ts.Eq(ch, ts.Int('_')))
-			return ts.Ite(keep, ch, r)
-		}), true
+	ranges, negate, plus, ok := parseCharClass(pat)
+	if !ok || !repl.IsConst() || strings.Contains(repl.Str, "$") {
+		panic(pathEnd{kind: "unmodelled", msg: "regexp.ReplaceAllString with pattern " + pat})
 	}
-	panic(pathEnd{kind: "unmodelled", msg: "regexp.ReplaceAllString with pattern " + pat})
+	match := func(ch *Term) *Term {
+		var in []*Term
+		for _, r := range ranges {
+			in = append(in, ts.And(ts.BvCmp(OBvUle, ts.Int(int64(r[0])), ch), ts.BvCmp(OBvUle, ch, ts.Int(int64(r[1])))))
+		}
+		m := ts.Or(in...)
+		if negate {
+			return ts.Not(m)
+		}
+		return m
+	}
+	if src.Op == OIte && iteLeafCount(src, liftLimit) <= liftLimit {
+		// finite-domain string: not needed by taskctl's callers; keep the generic path
+	}
+	n := e.concretize(c.st, ts.StrLen(src), e.job.MaxLen, "string length")
+	var parts []*Term
+	prev := ts.F // previous character matched (for +)
+	for i := 0; i < n; i++ {
+		chs := ts.StrAt(src, ts.Int(int64(i)))
+		ch := ts.StrToCode(chs)
+		m := match(ch)
+		out := ts.Ite(m, repl, chs)
+		if plus {
+			// inside a run only the first matching character emits the replacement
+			out = ts.Ite(ts.And(m, prev), ts.StrC(""), out)
+		}
+		parts = append(parts, out)
+		prev = m
+	}
+	return ts.StrConcat(parts...), true
 }
 
 // ReplaceAllLiteral(ansi, p, {}) is the identity on inputs without ESC (0x1b) and
@@ -1369,7 +1430,14 @@ func pathJoin(c *CallCtx) (Value, bool) {
 	if r, ok := e.ts.liftArgs(items, join); ok {
 		return r, true
 	}
-	panic(pathEnd{kind: "unmodelled", msg: "path.Join on a non-finite symbolic component"})
+	desc := ""
+	for _, it := range items {
+		desc += " [" + e.ts.Show(it) + "]"
+	}
+	if len(desc) > 600 {
+		desc = desc[:600]
+	}
+	panic(pathEnd{kind: "unmodelled", msg: "path.Join on a non-finite symbolic component:" + desc})
 }
 
 func pathDir(c *CallCtx) (Value, bool) {
